@@ -970,3 +970,71 @@ def unit_ladder_and_helpers(timeout_ms=10000):
     return run_unit("number_ordered_form:LadderOp/_number_operator_to_placeholder/_sum", harness,
                     functions=[(MODULE, "LadderOp.__new__"), (MODULE, "LadderOp._eval_adjoint"), (MODULE, "LadderOp.name"), (MODULE, "LadderOp.is_annihilation"),
                                (MODULE, "_number_operator_to_placeholder"), (MODULE, "_sum")], timeout_ms=timeout_ms)
+
+
+def unit_number_operator_new(timeout_ms=10000):
+    """NumberOperator.__new__(cls, *args, **hints): called with ONE argument, that argument must be an operator of one of the four supported classes (TypeError otherwise) and the
+    object is built as super().__new__(cls, operator.name, <name of THE class among operator_types the operator is an instance of>, **hints) - the mode name and the statistics are
+    what doit / _eval_power / the placeholder (their own units) read back, so a wrong class name turns a fermionic number operator into a bosonic one;
+    called with TWO arguments (sympy rebuilding the object from .args) they are passed through unchanged, in order; any other count is a ValueError."""
+    new = frontend.find(MODULE, "NumberOperator.__new__")
+
+    def harness(eng):
+        class Cls(TypeObj):
+            def m_getattr(s, e, attr):
+                if attr == "__name__":
+                    return s.name
+                raise Unsupported(f"class.{attr}")
+        # the class tuple is READ from the module's own assignment `operator_types = ...` (last attribute name of each element)
+        ORDER = None
+        for st in frontend.module_ast(MODULE)[0].body:
+            if isinstance(st, ast.Assign) and len(st.targets) == 1 and isinstance(st.targets[0], ast.Name) and st.targets[0].id == "operator_types" and isinstance(st.value, ast.Tuple):
+                ORDER = [e.attr if isinstance(e, ast.Attribute) else e.id for e in st.value.elts if isinstance(e, (ast.Attribute, ast.Name))]
+        eng.oblige("operator_types-is-the-four-supported-classes", z3.BoolVal(ORDER is not None and sorted(ORDER) == ["BosonOp", "FermionOp", "LadderOp", "SigmaOpBase"]), detail=repr(ORDER))
+        if ORDER is None:
+            return
+        made = []
+
+        def super_new(e, *a, **kw):
+            made.append((a, kw))
+            return T("number-operator-object")
+        eng.globals.update({"operator_types": STup([Cls(n) for n in ORDER]),
+                            "super": Builtin("super", lambda e: Namespace("super", {"__new__": Builtin("__new__", super_new)}))})
+        CLS, HINT = T("cls"), T("hint-value")
+
+        class Op(Model):
+            def __init__(s, kinds, name):
+                s.kinds, s.nm = kinds, name
+
+            def m_isinstance(s, e, clsname):
+                return clsname in s.kinds
+
+            def m_getattr(s, e, attr):
+                if attr == "name":
+                    return s.nm
+                raise Unsupported(f"operator.{attr}")
+
+        def call(args, kw):
+            made.clear()
+            try:
+                r = eng.call(Closure(new, Env(None, {}), "__new__"), [CLS] + args, kw)
+                return r, None
+            except PyRaise as pr:
+                return None, pr.exc.cls
+        for kind, kinds in (("BosonOp", ("BosonOp", "Operator")), ("LadderOp", ("LadderOp", "Operator")), ("SigmaOpBase", ("SigmaX", "SigmaOpBase", "Operator")),
+                            ("SigmaOpBase", ("SigmaMinus", "SigmaOpBase", "Operator")), ("FermionOp", ("FermionOp", "Operator"))):
+            NAME = T("mode-name-" + kinds[0])
+            r, exc = call([Op(kinds, NAME)], {"hint": HINT})
+            ok = exc is None and isinstance(r, T) and r.head == "number-operator-object" and len(made) == 1 and len(made[0][0]) == 3 and made[0][0][0] is CLS \
+                and made[0][0][1] is NAME and made[0][0][2] == kind and list(made[0][1]) == ["hint"] and made[0][1]["hint"] is HINT
+            eng.oblige(f"one-operator[{kinds[0]}]:built-from-(its name, '{kind}')-hints-passed-on", z3.BoolVal(bool(ok)), detail=f"{made!r} {exc}")
+        r, exc = call([Op(("Symbol", "Expr"), T("x"))], {})
+        eng.oblige("one-argument-that-is-no-supported-operator:TypeError-nothing-built", z3.BoolVal(exc == "TypeError" and not made), detail=f"{exc} {made!r}")
+        A, B = T("name-from-args"), T("type-from-args")
+        r, exc = call([A, B], {})
+        ok = exc is None and len(made) == 1 and len(made[0][0]) == 3 and made[0][0][0] is CLS and made[0][0][1] is A and made[0][0][2] is B and not made[0][1]
+        eng.oblige("two-arguments(rebuild from .args):passed-through-in-order", z3.BoolVal(bool(ok)), detail=f"{made!r} {exc}")
+        for n_bad in (0, 3):
+            r, exc = call([A] * n_bad, {})
+            eng.oblige(f"{n_bad}-arguments:ValueError-nothing-built", z3.BoolVal(exc == "ValueError" and not made), detail=f"{exc} {made!r}")
+    return run_unit("number_ordered_form:NumberOperator.__new__", harness, functions=[(MODULE, "NumberOperator.__new__")], timeout_ms=timeout_ms)
